@@ -53,6 +53,16 @@ func checkC17(c *Ctx) {
 		c.evalAcceptRule(p, "C17.threshold", sprintf("validateParams(players=%d, threshold=%d) accepted=%v", t.l, t.k, t.ok), vp, map[string]lat{"players": latInt(t.l), "threshold": latInt(t.k)}, nil, t.ok)
 	}
 	c.guard(p, "C17.threshold", "Deal only after parameter validation", p.Func(tr, "", "Deal"), GuardSpec{Assumes: []Assume{calleeAssume(latNonNil, -1, "tss/rsa.validateParams")}})
+	// Shoup's combination inverts e modulo 4(l!)^2: a key whose public exponent shares a factor with l! deals
+	// shares that can never be combined, so Deal has to refuse it
+	c.guard(p, "C17.threshold", "Deal refuses a public exponent that is not coprime to players!", p.Func(tr, "", "Deal"),
+		GuardSpec{Assumes: []Assume{{Name: "gcd(e, l!) compared with 1", Result: -1, Val: latInt(1), Match: func(ci ssa.CallInstruction, callee string, _ *ssa.Function) bool {
+			if callee != "(*math/big.Int).Cmp" || len(ci.Common().Args) < 1 {
+				return false
+			}
+			g, ok := ci.Common().Args[0].(*ssa.Call)
+			return ok && p.staticCalleeName(&g.Call) == "(*math/big.Int).GCD"
+		}}}})
 	cs := p.Func(tr, "", "CombineSignShares")
 	c.evalAcceptRule(p, "C17.threshold", "empty share list is refused", cs, map[string]lat{"shares": latSliceLen(0)}, nil, false)
 	c.guard(p, "C17.threshold", "combined signature is returned only after the self-check y^e == x", cs, GuardSpec{Args: map[string]lat{"shares": latNonEmpty}, Assumes: []Assume{calleeAssume(latInt(1), -1, "(*math/big.Int).Cmp")}})
